@@ -189,10 +189,12 @@ func (s *ExecutionPayloadHeader) View() *ExecutionPayloadHeaderView {
 	if err != nil {
 		panic(err)
 	}
-	pr, cb, sr, rr := (*RootView)(&s.ParentHash), s.FeeRecipient.View(), (*RootView)(&s.StateRoot), (*RootView)(&s.ReceiptsRoot)
-	lb, rng, nr, gl, gu := s.LogsBloom.View(), (*RootView)(&s.PrevRandao), s.BlockNumber, s.GasLimit, s.GasUsed
-	ts, bf, bh, tr := Uint64View(s.Timestamp), &s.BaseFeePerGas, (*RootView)(&s.BlockHash), (*RootView)(&s.TransactionsRoot)
-	wr := (*RootView)(&s.WithdrawalsRoot)
+	// copy the roots: a *RootView is its own tree node, the view must not share memory with this struct
+	parentHashCopy, stateRootCopy, receiptsRootCopy, prevRandaoCopy, blockHashCopy, transactionsRootCopy, withdrawalsRootCopy := RootView(s.ParentHash), RootView(s.StateRoot), RootView(s.ReceiptsRoot), RootView(s.PrevRandao), RootView(s.BlockHash), RootView(s.TransactionsRoot), RootView(s.WithdrawalsRoot)
+	pr, cb, sr, rr := &parentHashCopy, s.FeeRecipient.View(), &stateRootCopy, &receiptsRootCopy
+	lb, rng, nr, gl, gu := s.LogsBloom.View(), &prevRandaoCopy, s.BlockNumber, s.GasLimit, s.GasUsed
+	ts, bf, bh, tr := Uint64View(s.Timestamp), &s.BaseFeePerGas, &blockHashCopy, &transactionsRootCopy
+	wr := &withdrawalsRootCopy
 
 	v, err := AsExecutionPayloadHeader(ExecutionPayloadHeaderType.FromFields(pr, cb, sr, rr, lb, rng, nr, gl, gu, ts, ed, bf, bh, tr, wr))
 	if err != nil {
